@@ -1398,6 +1398,121 @@ static void wlBasFile(Ctx& c, int nexec, int len)
    }
 }
 
+static int g_execIndex, g_nexec;
+// ---------------------------------------------------------------- C12: numeric literals (GEN: the literals come from TLC)
+static bool readOneCoef(const std::string& fileText, const char* ext, int readMode, std::string& outRat, std::string& outReal, bool& ok)
+{
+   std::string fn = g_tmpdir + "/lit." + ext; { std::ofstream f(fn); f << fileText; }
+   SoPlex s; s.setIntParam(SoPlex::VERBOSITY, 0); s.setIntParam(SoPlex::READMODE, readMode);
+   if(readMode == SoPlex::READMODE_RATIONAL) s.setIntParam(SoPlex::SYNCMODE, SoPlex::SYNCMODE_AUTO);
+   ok = s.readFile(fn.c_str());
+   outRat = "none"; outReal = "none";
+   if(ok && s.numCols() >= 1)
+   {
+      outReal = qdraw(s.objReal(0));
+      if(readMode == SoPlex::READMODE_RATIONAL && s.numColsRational() >= 1) outRat = qmpq(s.objRational(0).backend().data());
+   }
+   remove(fn.c_str());
+   return ok;
+}
+static void wlLits(Ctx& c, int shard, int nshards)
+{
+   const char* path = getenv("VERIF_LITS"); if(!path) { fprintf(stderr, "VERIF_LITS not set\n"); _exit(2); }
+   std::ifstream in(path); std::string line; int k = 0;
+   T().line("{\"a\":\"Reset\"}");
+   while(std::getline(in, line))
+   {
+      if((k++ % nshards) != shard) continue;
+      size_t a = line.find("\"text\":\""); if(a == std::string::npos) continue; a += 8; size_t b = line.find('"', a); std::string lit = line.substr(a, b - a);
+      J ev; ev.s("a", "literal").s("text", lit);
+      pending() = "ratFromString " + lit;
+      try { Rational r = ratFromString(lit.c_str()); ev.s("ratFromString", qmpq(r.backend().data())); }
+      catch(const std::exception& ex) { ev.s("ratFromString", "throws"); }
+      bool frac = lit.find('/') != std::string::npos;
+      // LP format: the literal is the objective coefficient of x0 (a leading sign is part of the term)
+      std::string lp = "Minimize\n obj: " + lit + " x0\nSubject To\n c1: x0 >= 1\nEnd\n";
+      std::string mps = "NAME lit\nROWS\n N obj\n G c1\nCOLUMNS\n x0 obj " + lit + " c1 1\nRHS\n rhs c1 1\nENDATA\n";
+      std::string q, r; bool ok;
+      pending() = "LP rational " + lit; readOneCoef(lp, "lp", SoPlex::READMODE_RATIONAL, q, r, ok); ev.b("lpRatOk", ok).s("lpRat", q);
+      pending() = "LP real " + lit; readOneCoef(lp, "lp", SoPlex::READMODE_REAL, q, r, ok); ev.b("lpRealOk", ok).s("lpReal", r);
+      pending() = "MPS rational " + lit; readOneCoef(mps, "mps", SoPlex::READMODE_RATIONAL, q, r, ok); ev.b("mpsRatOk", ok).s("mpsRat", q);
+      pending() = "MPS real " + lit; readOneCoef(mps, "mps", SoPlex::READMODE_REAL, q, r, ok); ev.b("mpsRealOk", ok).s("mpsReal", r);
+      ev.b("frac", frac);
+      T().line(ev.str());
+   }
+}
+
+// ---------------------------------------------------------------- C12: write a file, read it back into a new object
+static std::string namesOf(const NameSet& ns) { return jarr(ns.num(), [&](int i) { return jstr(ns[i]); }); }
+// allowUserNames: name sets are keyed by the keys of the LP's rows/columns, which equal the indices only as long as
+// nothing has been removed
+static void fileRoundTrip(Ctx& c, int o, bool rational, bool allowUserNames)
+{
+   SoPlex& s = *c.objs[o];
+   bool mps = c.rng.coin(), wzo = c.rng.coin(), userNames = allowUserNames && c.rng.coin(), unscale = true;
+   int nr = s.numRows(), nc = s.numCols();
+   NameSet rn, cn; std::vector<std::string> rnames, cnames;
+   for(int i = 0; i < nr; i++) { std::string n = userNames ? "row" + std::to_string(i) + "_" : "C" + std::to_string(i); rnames.push_back(n); if(userNames) rn.add(n.c_str()); }
+   for(int j = 0; j < nc; j++) { std::string n = userNames ? "var" + std::to_string(j) : "x" + std::to_string(j); cnames.push_back(n); if(userNames) cn.add(n.c_str()); }
+   std::string fn = g_tmpdir + "/f" + std::to_string(c.rng.R(0, 1 << 30)) + (mps ? ".mps" : ".lp");
+   pending() = mps ? "writeFile mps" : "writeFile lp";
+   bool wret = rational ? s.writeFileRational(fn.c_str(), userNames ? &rn : nullptr, userNames ? &cn : nullptr, nullptr, wzo)
+                        : s.writeFileReal(fn.c_str(), userNames ? &rn : nullptr, userNames ? &cn : nullptr, nullptr, unscale, wzo);
+   int id = c.nextId++; c.objs[id].reset(new SoPlex()); c.noInternal[id] = true; c.modsSinceBasis[id] = 0;
+   SoPlex& f = *c.objs[id]; f.setIntParam(SoPlex::VERBOSITY, 0);
+   if(rational) { f.setIntParam(SoPlex::READMODE, SoPlex::READMODE_RATIONAL); f.setIntParam(SoPlex::SYNCMODE, SoPlex::SYNCMODE_AUTO); }
+   NameSet rn2, cn2;
+   pending() = mps ? "readFile mps" : "readFile lp";
+   bool rret = f.readFile(fn.c_str(), &rn2, &cn2);
+   auto names = [&](const std::vector<std::string>& v) { return jarr((int)v.size(), [&](int i) { return jstr(v[i]); }); };
+   J ev; ev.s("a", "fileRoundTrip").i("o", id).i("src", o).s("fmt", mps ? "mps" : "lp").s("mode", rational ? "rational" : "real").b("wzo", wzo).b("wret", wret).b("rret", rret)
+      .raw("srcRowNames", names(rnames)).raw("srcColNames", names(cnames)).raw("rowNames", namesOf(rn2)).raw("colNames", namesOf(cn2));
+   emit(c, id, ev);
+   if(rret && f.numRows() > 0 && f.numCols() > 0 && !rational) { SolveOpts so; so.complete = false; optimize(c, id, so); }
+   destroyObj(c, id);
+   remove(fn.c_str());
+}
+// the dual LP written by writeDualFileReal has the same optimal value as the primal
+static void dualFileSolve(Ctx& c, int o)
+{
+   SoPlex& s = *c.objs[o];
+   std::string fn = g_tmpdir + "/d" + std::to_string(c.rng.R(0, 1 << 30)) + ".lp";
+   pending() = "writeDualFileReal";
+   bool wret = s.writeDualFileReal(fn.c_str());
+   SoPlex f; f.setIntParam(SoPlex::VERBOSITY, 0);
+   pending() = "readFile dual";
+   bool rret = f.readFile(fn.c_str());
+   int st = -99; double val = 0;
+   if(rret && f.numCols() > 0 && f.numRows() > 0) { pending() = "optimize dual"; st = (int)f.optimize(); val = f.objValueReal(); }
+   J ev; ev.s("a", "dualFile").i("o", o).b("wret", wret).b("rret", rret).i("status", st).q("objval", val).i("nr", f.numRows()).i("nc", f.numCols());
+   emit(c, o, ev);
+   remove(fn.c_str());
+}
+static void wlFiles(Ctx& c, int nexec, int len)
+{
+   for(int e = 0; e < nexec; e++)
+   {
+      T().line("{\"a\":\"Reset\"}");
+      c.objs.clear(); c.nextId = 0;
+      Gen gen{c.rng, c.rng.coin(1, 3) ? 2 : 0};
+      int o = createObj(c);
+      bool rational = c.rng.coin(1, 3);
+      if(rational) setInt(c, o, "SYNCMODE", SoPlex::SYNCMODE, SoPlex::SYNCMODE_AUTO);
+      setInt(c, o, "SCALER", SoPlex::SCALER, c.rng.coin() ? 0 : c.rng.R(1, 4));
+      if(rational) { LPDataQ Q = genWitnessedQ(c.rng, 5, c.rng.coin(3, 4) ? "OPT" : "INF", false); loadLPQ(c, o, Q); }
+      else { LPData L = genWitnessed(c.rng, 5, c.rng.coin(3, 4) ? "OPT" : (c.rng.coin() ? "INF" : "UNB"), c.rng.coin(1, 3) ? 6 : 0); loadLP(c, o, L, false); witness(c, o, L);
+             if(L.kind == "OPT" && c.rng.coin()) dualFileSolve(c, o); }
+      bool modified = false;
+      for(int step = 0; step < len; step++)
+      {
+         int k = c.rng.R(0, 99); SoPlex& s = *c.objs[o];
+         if(k < 50) fileRoundTrip(c, o, rational, !modified);
+         else if(k < 70 && !rational) { if(s.numCols() > 0 && s.numRows() > 0) { SolveOpts so; so.complete = false; optimize(c, o, so); } }   // afterwards the stored LP may be scaled
+         else if(!rational) { int tries = 0; while(!randomModReal(c, o, gen, 6) && ++tries < 50) {} modified = true; }
+      }
+   }
+}
+
 // C04: every point of a history at which hasBasis() is true; set/read back; transplant into a new object
 static void wlBasis(Ctx& c, int nexec, int len)
 {
@@ -1439,6 +1554,8 @@ static int runWorkload(Ctx& c, const std::string& wl, int len)
    else if(wl == "basis") wlBasis(c, 1, len);
    else if(wl == "sync") wlSync(c, 1, len);
    else if(wl == "copy") wlCopy(c, 1, len);
+   else if(wl == "files") wlFiles(c, 1, len);
+   else if(wl == "lits") wlLits(c, g_execIndex, g_nexec);
    else if(wl == "basfile") wlBasFile(c, 1, len);
    else if(wl == "exact") wlExact(c, 1, len, 5);
    else if(wl == "exactbig") wlExact(c, 1, len, 12);
@@ -1471,7 +1588,7 @@ int main(int argc, char** argv)
       {
          T().f = fopen(argv[5], "a"); if(!T().f) _exit(2);
          installCrashHandlers();
-         Ctx c(seed * 1000003UL + (unsigned long)e);
+         Ctx c(seed * 1000003UL + (unsigned long)e); g_execIndex = e; g_nexec = nexec;
          int rc = runWorkload(c, wl, len);
          T().close();
          if(!nofork) _exit(rc);
